@@ -34,6 +34,7 @@ var errInvalidClusterNodes = errors.New("invalid cluster nodes")
 func parseClusterNodes(data string) (map[string]*instance, error) {
 	lines := strings.Split(data, "\n")
 	insts := make(map[string]*instance)
+	unusable := make(map[string]bool) // ids of replicas that are no candidates for reads
 	for _, line := range lines {
 		fields := strings.Fields(line)
 		// the last line is empty
@@ -49,13 +50,16 @@ func parseClusterNodes(data string) (map[string]*instance, error) {
 		if len(strings.Split(addr, ":")) != 2 {
 			return nil, errInvalidClusterNodes
 		}
-		// TODO: detect flags
 		inst := &instance{ID: id, Addr: addr}
 		insts[id] = inst
 
 		isMaster := fields[3] == "-"
 		if !isMaster {
 			inst.MasterID = fields[3]
+			// a replica the cluster reports as failed, or whose address it does not
+			// know (yet), is no candidate for reads: it is listed, but not attached
+			// to its master below.
+			unusable[id] = !isUsableReplica(fields[2])
 			continue
 		}
 
@@ -75,13 +79,26 @@ func parseClusterNodes(data string) (map[string]*instance, error) {
 		}
 		delete(insts, id)
 		master, ok := insts[inst.MasterID]
-		if !ok {
-			// the master is not (or not yet) listed: ignore this replica.
+		if !ok || unusable[id] {
+			// the master is not (or not yet) listed, or the replica is of no
+			// use (see above): ignore this replica.
 			continue
 		}
 		master.Replicas = append(master.Replicas, inst)
 	}
 	return insts, nil
+}
+
+// isUsableReplica looks at the flags column of a replica's line ("slave",
+// "myself,slave", "slave,fail", ...). "fail?" is only this node's suspicion.
+func isUsableReplica(flags string) bool {
+	for _, flag := range strings.Split(flags, ",") {
+		switch flag {
+		case "fail", "noaddr", "handshake":
+			return false
+		}
+	}
+	return true
 }
 
 func parseClusterNodesSlot(segements []string) ([]int, error) {
